@@ -57,3 +57,15 @@ func init() {
 	props["C16"] = PropSpec{Title: "tmpl", Explanation: "tmp", Rules: []Rule{{"regex-lazy", "f", ruleRegexLazy}, {"pass-order", "p", rulePassOrder}, {"closure-ret", "p", ruleClosureRet}}}
 	props["C01"] = PropSpec{Title: "wf", Explanation: "tmp", Rules: []Rule{{"raw-xml", "f", ruleRawXML}}}
 }
+
+func init() {
+	p := props["C01"]
+	p.Rules = append(p.Rules, Rule{"part-prov", "p", rulePartProv}, Rule{"ct-media", "c", ruleCTMedia})
+	props["C01"] = p
+}
+
+func init() {
+	p := props["C04"]
+	p.Rules = append(p.Rules, Rule{"part-pass", "p", rulePartPass}, Rule{"schema-opc", "c", ruleSchemaOPC}, Rule{"media-fresh", "m", ruleMediaFresh})
+	props["C04"] = p
+}
